@@ -3,6 +3,7 @@ package worlds
 import (
 	"fmt"
 	"net/http"
+	"runtime"
 	"strings"
 	"sync"
 
@@ -35,7 +36,7 @@ type c07Conn struct {
 	late   bool
 
 	reqEnter, reqRet, resEnter, resRet int
-	reqCalls, resCalls                  int
+	reqCalls, resCalls                 int
 }
 
 func runC07(k *kernel.K) {
@@ -54,9 +55,31 @@ func runC07(k *kernel.K) {
 	// Yield hook: park the handler goroutine of designated connections before it does anything.
 	yieldPark := map[int]bool{} // accept order index -> park
 	accepted := 0
+	ly := k.LockYield()
+	// regStep[i]: the step at which Serve registered the i-th connection it obtained from Accept
+	// with the proxy's connection set (absent: not registered yet)
+	regStep := map[int]int{}
+	regSeen := 0
 	martian.VerifYieldHook = func(site string) {
+		if site == "lock:proxy" {
+			// seam R8: Serve (registering an accepted connection) or Close can be parked right
+			// before taking the connection-set mutex
+			if callerHas("(*Proxy).Serve") {
+				mu.Lock()
+				i := regSeen
+				regSeen++
+				mu.Unlock()
+				ly(site)
+				mu.Lock()
+				regStep[i] = k.StepN
+				mu.Unlock()
+				return
+			}
+			ly(site)
+			return
+		}
 		if site != "handleLoop" {
-			return // yield points of other seams (R8) are not this world's subject
+			return // yield points of other seams are not this world's subject
 		}
 		mu.Lock()
 		i := accepted
@@ -216,6 +239,26 @@ func runC07(k *kernel.K) {
 		}
 	}
 	mu.Unlock()
+	// A connection belongs to the proxy once Serve has registered it. One that Serve obtained from
+	// Accept but had not registered when Close was called (Serve parked in between, seam R8) is,
+	// for the proxy, a connection accepted after shutdown began; one that Serve never obtained
+	// (Serve returned first) stays in the listener's backlog, which is the caller's to close.
+	regClass := func(i int) string {
+		mu.Lock()
+		defer mu.Unlock()
+		st, ok := regStep[i]
+		switch {
+		case i >= l.Accepted:
+			return "backlog"
+		case regSeen == 0:
+			// Serve never passed the registration site (the code under test registers somewhere
+			// else): fall back to "accepted means obtained from Accept"
+			return "registered"
+		case !ok || st > closeCalled:
+			return "registered_after_close"
+		}
+		return "registered"
+	}
 	k.Do(kernel.Action{Key: "call proxy.Close()", Class: kernel.Call, Do: func() {
 		go func() {
 			proxy.Close()
@@ -237,10 +280,35 @@ func runC07(k *kernel.K) {
 		var open []string
 		for _, c := range n.Conns() {
 			if strings.HasPrefix(c.Label(), "srv(") && !c.Closed() {
+				idx := -1
+				for _, cc := range conns {
+					if "srv("+cc.client.Name+")" == c.Label() {
+						idx = cc.idx
+					}
+				}
+				if idx >= 0 && regClass(idx) != "registered" {
+					continue
+				}
+				if idx < 0 && c.Label() == "srv(late)" {
+					continue
+				}
 				open = append(open, c.Label())
 			}
 		}
 		handlers := kernel.CensusSummary(k.Census(), "(*Proxy).handleLoop")
+		// handlers of connections registered only after Close was called are not Close's to wait for
+		nh, lateOK := 0, 0
+		for _, c := range handlers {
+			nh += c
+		}
+		for i := 0; i <= len(conns); i++ {
+			if regClass(i) == "registered_after_close" {
+				lateOK++
+			}
+		}
+		if nh <= lateOK {
+			handlers = nil
+		}
 		if len(open) > 0 || len(handlers) > 0 {
 			what := "handler_running"
 			if len(open) > 0 {
@@ -311,6 +379,16 @@ func runC07(k *kernel.K) {
 			continue
 		}
 		fin := cl.P.Final()
+		switch regClass(c.idx) {
+		case "backlog":
+			k.Probe("left_in_listener_backlog")
+			continue
+		case "registered_after_close":
+			if !c.late {
+				k.Probe("registered_after_close_began")
+			}
+			c.late = true
+		}
 		if c.late {
 			if c.reqCalls > 0 || cl.P.Total > 0 {
 				k.Fail("C07.late_accept_unserved", nil, "%s: a connection accepted after shutdown began was served (%d modifier calls, %d bytes written to it)", desc, c.reqCalls, cl.P.Total)
@@ -359,4 +437,20 @@ func runC07(k *kernel.K) {
 	k.ReleaseAll()
 	n.Shutdown()
 	k.Settle()
+}
+
+// callerHas reports whether one of the nearest callers' function names contains substr.
+func callerHas(substr string) bool {
+	pc := make([]uintptr, 8)
+	nf := runtime.Callers(2, pc)
+	frames := runtime.CallersFrames(pc[:nf])
+	for {
+		f, more := frames.Next()
+		if strings.Contains(f.Function, substr) {
+			return true
+		}
+		if !more {
+			return false
+		}
+	}
 }
